@@ -416,7 +416,41 @@ def fresh_results_standin(ctx):
     ctx.add_bounded("sampling.quasirandom/bounded/results_not_shared", "sobol and kgf, three argument shapes; call, modify the result in place, call again", evals, evals, fails[:3], rule="calls")
 
 
+def front_end_tables(ctx):
+    """G: every method name the front end accepts has a batch and a single-point generator of the same sequence, and the default call returns the head of the sequence."""
+    import chmpy.sampling as front
+    f = ctx.fn("chmpy.sampling", "quasirandom")
+    bad = []
+    if set(front._BATCH) != set(front._SINGLE):
+        bad.append({"batch_only": sorted(set(front._BATCH) - set(front._SINGLE)), "single_only": sorted(set(front._SINGLE) - set(front._BATCH))})
+    n = 0
+    for method in sorted(set(front._BATCH) & set(front._SINGLE)):
+        for seed, count, dim in ((1, 9, 3), (5, 4, 1), (100, 17, 6), (2, 1, 2)):
+            n += 1
+            try:
+                batch = np.asarray(front.quasirandom(count, dim, method=method, seed=seed), dtype=float)
+                singles = np.array([np.asarray(front.quasirandom(dim, method=method, seed=seed + k), dtype=float) for k in range(count)])
+                if batch.shape != (count, dim) or not np.array_equal(batch, singles.reshape(count, dim)):
+                    bad.append({"method": method, "seed": seed, "count": count, "dimensions": dim, "batch_shape": list(batch.shape), "equal": False})
+            except Exception as e:  # noqa
+                bad.append({"method": method, "seed": seed, "count": count, "dimensions": dim, "raised": repr(e)[:160]})
+    ctx.ground("sampling.quasirandom/tables/every_method_batch_equals_single", not bad, clause=f"for every method name in the dispatch tables ({sorted(front._BATCH)}) the batch form returns, row by row, "
+               "the single-point form for the same seeds", detail=bad[:3], witness=bad[:2], fn=f)
+    bad2 = []
+    for method in sorted(set(front._BATCH) & set(front._SINGLE)):
+        try:
+            a_, b_ = np.asarray(front.quasirandom(8, 2, method=method)), np.asarray(front.quasirandom(8, 2, method=method, seed=1))
+            c_, d_ = np.asarray(front.quasirandom(3, method=method)), np.asarray(front.quasirandom(3, method=method, seed=1))
+            if not (np.array_equal(a_, b_) and np.array_equal(c_, d_)):
+                bad2.append({"method": method, "default_call_equals_seed_1": False})
+        except Exception as e:  # noqa
+            bad2.append({"method": method, "raised": repr(e)[:160]})
+    ctx.ground("sampling.quasirandom/default_seed_is_head_of_sequence", not bad2, clause="the call without a seed returns the points of seeds 1, 2, ... (the head of the sequence: the stratification clause is about "
+               "the FIRST 2^m points)", detail=bad2, witness=bad2[:2], fn=f)
+
+
 def bounded_checks(ctx, nat, rng, quick, have_s, have_l):
+    front_end_tables(ctx)
     fresh_results_standin(ctx)
     front = nat.front
     # ---- (1) extracted source text vs compiled binary (ties the proofs about the text to the binary that runs)
